@@ -764,6 +764,11 @@ def _decorate_inline(context, fn):
         def go(*args, **kw):
             return dec(context, *args, **kw)
 
+        # a def nested in a call is handed to the callee by name
+        try:
+            go.__name__ = render_fn.__name__
+        except TypeError:
+            pass
         return go
 
     return decorate_render
